@@ -13,7 +13,8 @@
 
   `&mut [u8]` parameters (`Packet::encode`'s output buffer, `Packet::decode`'s input buffer — decrypted in place) and the
   `Option<&mut ReplayProtection>` parameter of `decode` are returned with the result, also inside an `Err`.
-  `EncOut` / `DecOut`: the result is the model's; the rest of the buffer is existentially quantified.
+  `EncOut` / `DecOut`: the result is the model's; the rest of the buffer is existentially quantified (`DecOutL`: and its
+  length is kept).
 -/
 import RenetVerif.Lemmas.SrcEquiv.NcCodec
 set_option maxRecDepth 10000
@@ -38,6 +39,12 @@ theorem nc_packet_decode (a : AEAD) (hl : a.Laws) (buffer : Bytes) (hbl : buffer
     DecOut (Netcode.Packet.decode a buffer pid key rp)
       (@Src.renetcode.packet.Packet.decode (aeadOf a) (toNats buffer) pid (key.map toNats) (rp.map reprRP)) :=
   packet_decode_eq a hl buffer hbl pid key rp
+/-- … and the buffer keeps its length (decrypting in place) -/
+theorem nc_packet_decode_len (a : AEAD) (hl : a.Laws) (buffer : Bytes) (hbl : buffer.length + 16 < 2 ^ 64) (pid : Nat)
+    (key : Option Bytes) (rp : Option RP) :
+    DecOutL buffer.length (Netcode.Packet.decode a buffer pid key rp)
+      (@Src.renetcode.packet.Packet.decode (aeadOf a) (toNats buffer) pid (key.map toNats) (rp.map reprRP)) :=
+  packet_decode_eqL a hl buffer hbl pid key rp
 
 /-- `Packet::generate_challenge` (no law needed: the sealed 300-byte buffer is the `seal` output itself) -/
 theorem nc_generate_challenge (a : AEAD) (cid : Nat) (ud : Bytes) (sequence : Nat) (key : Bytes) :
